@@ -1392,7 +1392,7 @@ class NameCheckVisitor(node_visitor.ReplacingNodeVisitor):
             ret = VOID
         if self.annotate:
             node.inferred_value = ret
-        if self.error_for_implicit_any:
+        if self.error_for_implicit_any and isinstance(ret, Value):
             for val in ret.walk_values():
                 if isinstance(val, AnyValue) and val.source is not AnySource.explicit:
                     self._show_error_if_checking(
